@@ -93,12 +93,18 @@ def run(rep: vlib.Reporter, tier: str, seed: int) -> None:
                             "in_planner_kf": 0, "mp_kf_transform": 0}
     fs = flight_server()
     n_eval = 0
+    # planner-defect domains decided in Coq on the exported plan (Model/PlanDefects.v); the Python predicates are only counted
+    from harness import planner_b
+    coq_cls = planner_b.classify([r["plan"] for r in recs], rep_prefix="C06")
+    dist["in_python_predicates_only"] = 0
     for i, r in enumerate(recs):
         plan = r["plan"]
         key = json.dumps(r["spec"], sort_keys=True)
         # the plan predicates describe link-free plans; in a joined plan both sources list the consumer as child by design (the run-time
         # lookup follows the merge relation, Model/RoutingJ.v): the shared-upload family lies outside every recorded domain
-        planner_kf = False if r["spec"].get("family") == "shared_upload" else bool(kf_tfs_partial_requirement(plan) or kf_framework_roundtrip(plan) or kf_tfs_missing(plan))
+        py_kf = bool(kf_tfs_partial_requirement(plan) or kf_framework_roundtrip(plan) or kf_tfs_missing(plan))
+        planner_kf = False if r["spec"].get("family") == "shared_upload" else bool(coq_cls[i])
+        dist["in_python_predicates_only"] += int(py_kf and not planner_kf)
         dist["in_planner_kf"] += planner_kf
         n_eval += 1
         if r["sync"]["status"] != "ok":
